@@ -129,6 +129,8 @@ def run_shape(shape, tier):
                 twin = twin or r == "sat"
             res["twin_ok"] = twin
             fill_explorer(res, ex)
+            if shape["n"] == 1 and nb == 1:
+                res["witnesses"].append({"vc": "witness", "site": "batch_tasks.sweep", "shape": shape, "model": {"sweep": True}, "witness": True, "always": True})
             return res
 
         def harness():
@@ -309,8 +311,43 @@ def _replay_run_worker(m):
         shutil.rmtree(d, ignore_errors=True)
 
 
+def _sweep():
+    """the real batch_tasks on every (n_tasks <= 640, n_batches <= 24, a few start indices; index and array mode) against the
+    property written as plain Python -- a conformance run on the real build (floats and all), attached as a witness replay"""
+    from thejoker.utils import batch_tasks
+    bad = []
+    for nb in range(1, 25):
+        for n in range(1, 641):
+            for lo in (0, 3):
+                for arr in (None, list(range(lo + n))):
+                    try:
+                        tasks = batch_tasks(n, nb, arr=arr, args=None, start_idx=lo)
+                    except Exception as e:
+                        bad.append("batch_tasks(%d, %d, start_idx=%d) raised %r" % (n, nb, lo, e))
+                        continue
+                    cur = lo
+                    ok = True
+                    for t_ in tasks:
+                        if arr is None:
+                            i1, i2 = t_[0]
+                        else:
+                            sl = list(t_[0])
+                            i1, i2 = (sl[0], sl[-1] + 1) if sl else (cur, cur)
+                            ok = ok and sl == arr[cur:cur + len(sl)]
+                        ok = ok and i1 == cur and i2 > i1 and t_[1] == cur
+                        cur = i2
+                    if not (ok and cur == lo + n):
+                        bad.append("batch_tasks(n_tasks=%d, n_batches=%d, start_idx=%d, %s): batches are not the consecutive non-empty cover of the range" % (n, nb, lo, "array" if arr is not None else "indices"))
+                if len(bad) > 3:
+                    return bad
+    return bad
+
+
 def replay(cand):
     m = cand.get("model") or {}
+    if m.get("sweep"):
+        bad = _sweep()
+        return {"reproduced": bool(bad), "detail": "; ".join(bad[:3]) or "real batch_tasks conforms on the sweep"}
     if "rw_idx" in m:
         if any(v < 0 for v in m["rw_idx"]):
             return {"reproduced": False, "detail": "model uses negative indices"}
